@@ -9,6 +9,7 @@ import (
 	"encoding/json"
 	"errors"
 	"fmt"
+	"strconv"
 
 	internaljson "github.com/modelcontextprotocol/go-sdk/internal/json"
 )
@@ -176,7 +177,7 @@ func EncodeIndent(msg Message, prefix, indent string) ([]byte, error) {
 // when its value is the empty string (see go-sdk#976).
 type wireDecode struct {
 	VersionTag string          `json:"jsonrpc"`
-	ID         any             `json:"id,omitempty"`
+	ID         json.RawMessage `json:"id,omitempty"`
 	Method     json.RawMessage `json:"method"`
 	Params     json.RawMessage `json:"params,omitempty"`
 	Result     json.RawMessage `json:"result,omitempty"`
@@ -191,7 +192,7 @@ func DecodeMessage(data []byte) (Message, error) {
 	if msg.VersionTag != wireVersion {
 		return nil, fmt.Errorf("invalid message version tag %q; expected %q", msg.VersionTag, wireVersion)
 	}
-	id, err := MakeID(msg.ID)
+	id, err := decodeID(msg.ID)
 	if err != nil {
 		return nil, err
 	}
@@ -220,6 +221,23 @@ func DecodeMessage(data []byte) (Message, error) {
 		resp.Error = msg.Error
 	}
 	return resp, nil
+}
+
+// decodeID decodes the "id" member of a message. Integer ids are parsed
+// exactly: decoding them through float64 (as encoding/json does for untyped
+// numbers) would silently alter ids above 2^53.
+func decodeID(raw json.RawMessage) (ID, error) {
+	if len(raw) == 0 {
+		return ID{}, nil
+	}
+	if n, err := strconv.ParseInt(string(bytes.TrimSpace(raw)), 10, 64); err == nil {
+		return Int64ID(n), nil
+	}
+	var v any
+	if err := internaljson.Unmarshal(raw, &v); err != nil {
+		return ID{}, fmt.Errorf("unmarshaling jsonrpc message: %w", err)
+	}
+	return MakeID(v)
 }
 
 func marshalToRaw(obj any) (json.RawMessage, error) {
